@@ -205,7 +205,9 @@ def _map_cyclic(x: numpy.ndarray, lbound: float, ubound: float) -> numpy.ndarray
             f"less than ubound ({ubound})."
         )
 
-    x = numpy.copy(x)
+    # The wrapped positions are real numbers whatever the storage of `x`: copy
+    # as floats (an integer array would truncate them).
+    x = numpy.array(x, dtype=float)
     x[x > ubound] = lbound + (x[x > ubound] - ubound) % (ubound - lbound)
     x[x < lbound] = ubound - (lbound - x[x < lbound]) % (ubound - lbound)
 
